@@ -85,8 +85,8 @@ def refresh_ports(I, st, tag):
     prev = {q: st.objs[q] for q in PORTS}
     init = symbolic_ports(I, st, tag)
     for q in ('sigq', 'stopq'):
-        taken = prev[q]['st'] == 2
-        st.objs[q]['st'] = z3.If(taken, z3.BitVecVal(2, 2), st.objs[q]['st'])
+        taken = z3.UGE(prev[q]['st'], 2)
+        st.objs[q]['st'] = z3.If(taken, prev[q]['st'], st.objs[q]['st'])
     return init
 
 
